@@ -27,6 +27,9 @@ import (
 	"verifharness/lib/canon"
 	"verifharness/lib/vk"
 	"verifharness/statekit"
+
+	"github.com/elastos/Elastos.ELA/core/types/payload"
+	crstate "github.com/elastos/Elastos.ELA/cr/state"
 )
 
 // Side selects the reported state.
@@ -48,6 +51,8 @@ type Config struct {
 	Done func(g *statekit.Gen)
 	// Profile adjusts the drawn profile.
 	Profile func(t *rapid.T, p *statekit.Profile, era statekit.Era)
+	// MaxHeight, if set, draws the height the history ends at.
+	MaxHeight func(t *rapid.T, p *statekit.Profile, era statekit.Era) uint32
 }
 
 type history struct {
@@ -71,12 +76,17 @@ type run struct {
 	dumps map[uint32]*obs
 	base  uint32 // lowest rollback target
 
-	roundChg, crChg            bool
-	maxDepth, rollbacks, forks int
-	kindsInRange               int
-	known                      bool
-	otherSide                  int
-	dead                       string
+	roundChg, crChg bool
+	// CR side: a committee change (or a failed one) was just connected - the
+	// next operation should be a rollback across it
+	hot                              bool
+	secondTerm, endAtChg, endAtChgRb bool
+	hotHeights                       map[uint32]bool
+	maxDepth, rollbacks, forks       int
+	kindsInRange                     int
+	known                            bool
+	otherSide                        int
+	dead                             string
 }
 
 func (r *run) render() any { return r.hist }
@@ -110,6 +120,11 @@ var arbiterCopyMask = func() map[string]bool {
 	return m
 }()
 
+// dposInternal: DPoS fields with listed C21 findings that neither the committee
+// nor the DPoS calls into the committee read (the degradation state machine's
+// state, the cache of the CR nodes' owner keys).
+var dposInternal = map[string]bool{"degradation.state": true, "State.StateKeyFrame.CurrentCRNodeOwnerKeys": true}
+
 type view struct {
 	name string
 	a, b *canon.Node
@@ -135,16 +150,29 @@ func (r *run) compare(clause string, h uint32, got, want *obs) (clean, ok bool) 
 	// the DPoS state embeds pointers to CR members and the committee reads the
 	// arbiters: a difference on the other side makes this side's comparison
 	// meaningless, and it is the other property's finding
+	otherDiverged := false
 	for _, v := range r.views(other, got, want)[:1] {
 		if df := (&canon.Differ{}).First(v.a, v.b); df != nil {
 			r.otherSide++
-			vk.Class("other-side-diverged/" + clause)
 			if os.Getenv("RBK_DEBUG") != "" {
 				fmt.Printf("RBK other side: %s height %d %s = %s want %s\n", clause, h, df.Path, df.A, df.B)
 			}
+			if r.cfg.Side == CR && (&canon.Differ{Mask: dposInternal}).First(v.a, v.b) == nil {
+				// listed C21 findings in fields the committee never sees: this
+				// side is still compared, the instance is resynchronised after
+				vk.Class("other-side-diverged-in-dpos-internal-fields/" + clause)
+				otherDiverged = true
+				continue
+			}
+			vk.Class("other-side-diverged/" + clause)
 			return false, true
 		}
 	}
+	defer func() {
+		if otherDiverged && ok {
+			clean = false
+		}
+	}()
 	for _, v := range r.views(r.cfg.Side, got, want) {
 		df := (&canon.Differ{}).First(v.a, v.b)
 		if df == nil {
@@ -195,8 +223,23 @@ func (r *run) advance(n int) {
 		before := r.k.Arbiters.DutyIndex
 		nArb := len(r.k.Arbiters.CurrentArbitrators)
 		sess := r.k.Committee.GetState().CurrentSession
+		inElection := r.k.Committee.IsInElectionPeriod()
+		open := map[string]bool{}
+		if r.cfg.Side == CR {
+			for _, p := range r.k.Proposals() {
+				if p.Status == crstate.Registered || p.Status == crstate.CRAgreed {
+					open[p.Proposal.Hash.String()] = true
+				}
+			}
+		}
+		if os.Getenv("RBK_DEBUG") == "3" && r.k.Committee.IsInVotingPeriod(r.k.Height+1) && r.k.Committee.IsInElectionPeriod() {
+			fmt.Println("RBK weights", r.k.Height+1, r.g.Weights())
+		}
 		b, c, info := r.g.Block(r.t)
 		r.hist.Blocks = append(r.hist.Blocks, info)
+		if os.Getenv("RBK_DEBUG") == "3" && r.k.Committee.IsInVotingPeriod(r.k.Height+1) && r.k.Committee.IsInElectionPeriod() {
+			fmt.Println("RBK block", info.Txs)
+		}
 		if p, val, frame := vk.Catch(func() { r.k.Process(b, c) }); p {
 			// a node panic while connecting a valid block is not a rollback
 			// question (C27/C03 territory); the history cannot continue
@@ -217,8 +260,55 @@ func (r *run) advance(n int) {
 		if r.k.Arbiters.DutyIndex < before || len(r.k.Arbiters.CurrentArbitrators) != nArb {
 			r.roundChg = true
 		}
-		if r.k.Committee.GetState().CurrentSession != sess {
+		if now := r.k.Committee.GetState().CurrentSession; now != sess {
 			r.crChg = true
+			if now >= 2 {
+				r.secondTerm = true
+			}
+		}
+		if r.cfg.Side == CR && (r.k.Committee.GetState().CurrentSession != sess || r.k.Committee.IsInElectionPeriod() != inElection) {
+			// proposals that ended with unused budget in the block of the change:
+			// proposal manager and committee both write CRCCommitteeUsedAmount
+			for _, p := range r.k.Proposals() {
+				if open[p.Proposal.Hash.String()] && (p.Status == crstate.CRCanceled || p.Status == crstate.VoterCanceled || p.Status == crstate.Aborted || p.Proposal.ProposalType == payload.CloseProposal && p.Status == crstate.VoterAgreed) {
+					if r.k.Committee.GetState().CurrentSession != sess {
+						r.endAtChg = true
+						r.hotHeights[b.Height] = true
+					}
+				}
+			}
+			if os.Getenv("RBK_DEBUG") != "" {
+				st := map[string]int{}
+				for _, p := range r.k.Proposals() {
+					st[fmt.Sprintf("%v:%v", open[p.Proposal.Hash.String()], p.Status)]++
+				}
+				cc := r.k.Params.CRConfiguration
+				fmt.Printf("RBK change at %d session %d->%d open=%d statuses=%v PCV=%d PPV=%d VP=%d\n", b.Height, sess, r.k.Committee.GetState().CurrentSession, len(open), st, cc.ProposalCRVotingPeriod, cc.ProposalPublicVotingPeriod, cc.VotingPeriod)
+			}
+			// stop here: the caller rolls the change back most of the time
+			r.hot = true
+			return
+		}
+	}
+}
+
+// quiet connects n blocks without dumps (heights nobody rolls back to).
+func (r *run) quiet(n int) {
+	for i := 0; i < n && r.dead == ""; i++ {
+		b, c, info := r.g.Block(r.t)
+		r.hist.Blocks = append(r.hist.Blocks, info)
+		if p, val, frame := vk.Catch(func() { r.k.Process(b, c) }); p {
+			r.dead = fmt.Sprintf("forward-panic:%s: %v", frame, val)
+			return
+		}
+		if ok, why := r.k.ProducerMapsConsistent(); !ok {
+			r.hist.Ops = append(r.hist.Ops, fmt.Sprintf("block %d dropped: %s", b.Height, why))
+			vk.Class("forward-conflicting-transitions")
+			r.truncateBlocks(b.Height - 1)
+			old := r.k
+			r.k = old.Rebuild(b.Height - 1)
+			old.Close()
+			r.g.K = r.k
 		}
 	}
 }
@@ -275,10 +365,11 @@ func Run(t *rapid.T, cfg Config) {
 		cfg.Profile(t, &prof, era)
 	}
 	k := statekit.New(prof)
-	r := &run{cfg: cfg, t: t, k: k, hist: &history{Profile: prof, Era: era.String()}, dumps: map[uint32]*obs{}}
+	r := &run{cfg: cfg, t: t, k: k, hist: &history{Profile: prof, Era: era.String()}, dumps: map[uint32]*obs{}, hotHeights: map[uint32]bool{}}
 	defer func() { r.k.Close() }()
 	r.g = statekit.NewGen(k)
 	r.g.DrawLazy(t)
+	r.g.UniformKinds = true
 	if era >= statekit.EraCR {
 		r.g.AddKinds(statekit.CRKinds())
 	}
@@ -318,15 +409,34 @@ func Run(t *rapid.T, cfg Config) {
 	if vk.Thorough() {
 		maxHeight = last + uint32(rapid.IntRange(lo, span+20).Draw(t, "maxheight2"))
 	}
-	// first block at VoteStart: after it the lowest rollback target exists
+	if cfg.MaxHeight != nil {
+		maxHeight = cfg.MaxHeight(t, &prof, era)
+	}
+	if cfg.Side == CR && prof.CRVotingStart > prof.VoteStart+2 {
+		// the committee ignores blocks below CRVotingStart: connect them without
+		// dumps and rollbacks (the producers still register and get voted)
+		r.quiet(int(prof.CRVotingStart - 2 - k.Height))
+	}
+	// first block: after it the lowest rollback target exists
 	r.advance(1)
+	r.base = r.k.Height
 	nops := rapid.IntRange(6, 30).Draw(t, "nops")
 	if cfg.Side == CR {
-		nops += 10
+		// the end of the history is what MaxHeight says
+		nops = 120
 	}
 	for op := 0; op < nops; op++ {
 		if r.k.Height >= maxHeight || r.dead != "" {
 			break
+		}
+		if r.hot {
+			r.hot = false
+			if r.k.Height > r.base && rapid.IntRange(0, 3).Draw(t, "hotrollback") > 0 {
+				if !r.rollbackEpisode() {
+					return
+				}
+				continue
+			}
 		}
 		if r.k.Height > r.base && rapid.IntRange(0, 2).Draw(t, "op") == 0 {
 			if !r.rollbackEpisode() {
@@ -337,6 +447,17 @@ func Run(t *rapid.T, cfg Config) {
 		n := rapid.IntRange(1, 8).Draw(t, "advance")
 		r.hist.Ops = append(r.hist.Ops, fmt.Sprintf("advance %d from %d", n, r.k.Height))
 		r.advance(n)
+	}
+	if os.Getenv("RBK_DEBUG") != "" {
+		fmt.Printf("RBK END era=%s height=%d max=%d nops=%d ops=%d committeeStart=%d duty=%d session=%d second=%v endAtChg=%v dead=%q\n", r.hist.Era, r.k.Height, maxHeight, nops, len(r.hist.Ops), prof.CRCommitteeStart, prof.DutyPeriod, r.k.Committee.GetState().CurrentSession, r.secondTerm, r.endAtChg, r.dead)
+		if os.Getenv("RBK_DEBUG") == "2" && !r.secondTerm && r.k.Height > prof.CRCommitteeStart+prof.DutyPeriod {
+			fmt.Println("    registercr acc/rej/na", r.g.Accepted["registercr"], r.g.Rejected["registercr"], r.g.Rejected["registercr/na"], "votecr", r.g.Accepted["votecr"], r.g.Rejected["votecr"], r.g.Rejected["votecr/na"], "lasterr", r.g.LastErr["registercr"], "|", r.g.LastErr["votecr"], "VP", prof.VotingPeriod, "block rej", r.g.Rejected["block"], r.g.LastErr["block"], "regcr dup", r.g.Rejected["registercr/dup-subject"], r.g.Rejected["registercr/dup-input"])
+			for _, bi := range r.hist.Blocks {
+				if bi.Height+prof.VotingPeriod+1 >= prof.CRCommitteeStart+prof.DutyPeriod && bi.Height <= prof.CRCommitteeStart+prof.DutyPeriod {
+					fmt.Println("   ", bi.Height, bi.Txs)
+				}
+			}
+		}
 	}
 	if r.dead == "" && r.k.Height > r.base {
 		if !r.rollbackEpisode() {
@@ -397,6 +518,9 @@ func (r *run) rollbackEpisode() bool {
 	}
 	for i := 0; i < d; i++ {
 		target := r.k.Height - 1
+		if r.hotHeights[r.k.Height] {
+			r.endAtChgRb = true
+		}
 		var err error
 		p, val, frame := vk.Catch(func() { err = r.k.RollbackOne() })
 		if p {
@@ -494,6 +618,15 @@ func (r *run) classify() {
 	}
 	if r.crChg {
 		vk.Class("has-committee-change")
+	}
+	if r.secondTerm {
+		vk.Class("second-committee-seated")
+	}
+	if r.endAtChg {
+		vk.Class("proposal-ended-with-unused-budget-in-the-block-of-a-committee-change")
+	}
+	if r.endAtChgRb {
+		vk.Class("proposal-ended-in-the-block-of-a-committee-change/rolled-back")
 	}
 	vk.Count("blocks", int64(len(r.hist.Blocks)))
 }
